@@ -130,7 +130,7 @@ ReadLineOp(line) ==
     IN IF Len(f) # 6 THEN Err
        ELSE IF f[1] = "" \/ f[2] = "" \/ f[5] = "" THEN Err
        ELSE IF ~ValidObjName(f[1]) \/ ~ValidObjName(f[2]) \/ ~ValidObjName(f[5]) THEN Err
-       ELSE IF f[3] # "" /\ f[4] # "" /\ (~ValidMethodName(f[3]) \/ ~ParseMethod(f[4]).ok) THEN Err
+       ELSE IF f[3] # "" /\ f[4] # "" /\ ~ValidMethodName(f[3]) THEN Err      \* (the descriptor: MethodDescriptor::try_from, C18's subject)
        ELSE IF ParseAccess(f[6]) = REFUSED THEN Err
        ELSE Ok(NestRec(f[1], f[2], IF f[3] = "" \/ f[4] = "" THEN <<>> ELSE <<f[3], f[4]>>, f[5], ParseAccess(f[6])))
 
@@ -162,11 +162,18 @@ LineWellFormed(line) ==
     /\ CountCh(line, TAB) = 5
     /\ LET f == SplitOn(line, TAB)
        IN /\ ValidObjName(f[1]) /\ ValidObjName(f[2]) /\ ValidObjName(f[5])
-          /\ (f[3] # "" /\ f[4] # "") => (ValidMethodName(f[3]) /\ ParseMethod(f[4]).ok)
+          /\ (f[3] # "" /\ f[4] # "") => (ValidMethodName(f[3]) /\ ParseMethod(f[4]).ok)      \* a table has method descriptors there
           /\ ParseAccess(f[6]) \in 0..65535
+(* a line that is ill-formed only in its method descriptor: what the descriptor type accepts is C18's subject, not judged here *)
+OnlyDescIllFormed(line) ==
+    /\ CountCh(line, TAB) = 5
+    /\ LET f == SplitOn(line, TAB)
+       IN /\ f[3] # "" /\ f[4] # "" /\ ~ParseMethod(f[4]).ok
+          /\ LineWellFormed(f[1] \o TAB \o f[2] \o TAB \o TAB \o TAB \o f[5] \o TAB \o f[6]) /\ ValidMethodName(f[3])
 ReadLaw(text, out) ==
     LET ls == Lines(text)
-    IN IF \E i \in 1..Len(ls) : ~LineWellFormed(ls[i]) THEN ~out.ok
+    IN IF \E i \in 1..Len(ls) : ~LineWellFormed(ls[i]) /\ ~OnlyDescIllFormed(ls[i]) THEN ~out.ok
+       ELSE IF \E i \in 1..Len(ls) : OnlyDescIllFormed(ls[i]) THEN TRUE
        ELSE /\ out.ok
             /\ Keys(out.v) = {SplitOn(ls[i], TAB)[1] : i \in 1..Len(ls)}
             /\ UniqueKeys(out.v)
